@@ -9,6 +9,7 @@ import (
 	"os/exec"
 	"path/filepath"
 	"runtime"
+	"sync"
 	"testing"
 	"time"
 
@@ -29,6 +30,15 @@ type Edit struct {
 	Del  int    `json:"del"`
 	Ins  int    `json:"ins"`
 	Seed uint64 `json:"seed"`
+}
+
+// MidRun overwrites one chunk of a seed's file when the feeder hands out its first job, i.e.
+// after the plan was validated ("the seed may have changed during processing").
+type MidRun struct {
+	Seed  int  `json:"seed"`  // which seed (index into the seeds that have a file of their own)
+	Chunk int  `json:"chunk"` // which chunk of that seed's index (modulo), zero chunks preferred when Zero
+	Zero  bool `json:"zero"`
+	Fill  byte `json:"fill"`
 }
 
 type SeedSpec struct {
@@ -58,6 +68,7 @@ type Case struct {
 	InconsA int         `json:"incons_a,omitempty"`
 	InconsD int         `json:"incons_d,omitempty"`
 	Perturb []int       `json:"perturb,omitempty"`
+	MidRun  *MidRun     `json:"midrun,omitempty"`  // a seed file is modified after validation, while assembling
 	CLI     bool        `json:"cli,omitempty"`     // also drive `desync extract` (needs $VERIF_DESYNC_BIN)
 	Inplace bool        `json:"inplace,omitempty"` // CLI: -k
 }
@@ -101,6 +112,15 @@ func genEdits(t *rapid.T, label string, blobLen int, inplace bool, sz gen.Sizes)
 		eds = append(eds, e)
 	}
 	return eds
+}
+
+func allZero(b []byte) bool {
+	for _, x := range b {
+		if x != 0 {
+			return false
+		}
+	}
+	return len(b) > 0
 }
 
 func max0(n int) int {
@@ -220,7 +240,14 @@ func genCase(t *rapid.T) Case {
 	if c.N > 1 {
 		c.Perturb = sched.Vector(t, "pv")
 	}
-	if os.Getenv("VERIF_DESYNC_BIN") != "" && rapid.IntRange(0, hx.Pick(40, 8)).Draw(t, "cli") == 0 {
+	if len(c.Seeds) > 0 && rapid.IntRange(0, 5).Draw(t, "midrun") == 0 {
+		c.MidRun = &MidRun{Seed: rapid.IntRange(0, 3).Draw(t, "mrseed"), Chunk: rapid.IntRange(0, 1<<16).Draw(t, "mrchunk"),
+			Zero: rapid.Bool().Draw(t, "mrzero"), Fill: byte(rapid.IntRange(1, 255).Draw(t, "mrfill"))}
+		if rapid.Bool().Draw(t, "mrblank") { // the regenerate repair path on a blank target
+			c.Prior, c.Action = "absent", 2
+		}
+	}
+	if os.Getenv("VERIF_DESYNC_BIN") != "" && c.MidRun == nil && rapid.IntRange(0, hx.Pick(40, 8)).Draw(t, "cli") == 0 {
 		c.CLI = true
 		c.Inplace = rapid.Bool().Draw(t, "inplace")
 	}
@@ -444,6 +471,47 @@ func run(c Case) (o hx.Outcome) {
 	}
 	base := runtime.NumGoroutine()
 	un := sched.Perturb(c.Perturb)
+	midRunDone := false
+	if c.MidRun != nil {
+		var cands []builtSeed
+		for _, b := range built {
+			if b.spec.Kind != "alias" && b.spec.Kind != "missingfile" && b.spec.Kind != "unopenable" && b.spec.Kind != "empty" && len(b.index.Chunks) > 0 {
+				cands = append(cands, b)
+			}
+		}
+		if len(cands) > 0 {
+			b := cands[c.MidRun.Seed%len(cands)]
+			ci := c.MidRun.Chunk % len(b.index.Chunks)
+			if c.MidRun.Zero { // prefer a chunk of the seed that is all zero (but not a null chunk)
+				for d := 0; d < len(b.index.Chunks); d++ {
+					j := (ci + d) % len(b.index.Chunks)
+					ch := b.index.Chunks[j]
+					if ch.ID != nullID && int(ch.Start+ch.Size) <= len(b.disk) && allZero(b.disk[ch.Start:ch.Start+ch.Size]) {
+						ci = j
+						break
+					}
+				}
+			}
+			ch := b.index.Chunks[ci]
+			inner := desync.VerifHook
+			var once sync.Once
+			desync.VerifHook = func(site string) {
+				if site == "assemble.feed" {
+					once.Do(func() {
+						if f, ferr := os.OpenFile(b.path, os.O_WRONLY, 0); ferr == nil {
+							fill := bytes.Repeat([]byte{c.MidRun.Fill}, int(ch.Size))
+							f.WriteAt(fill, int64(ch.Start))
+							f.Close()
+							midRunDone = true
+						}
+					})
+				}
+				if inner != nil {
+					inner(site)
+				}
+			}
+		}
+	}
 	stats, err := desync.AssembleFile(context.Background(), target, idx, store, seeds,
 		desync.AssembleOptions{N: n, InvalidSeedAction: desync.InvalidSeedAction(c.Action % 3)})
 	sched.QuiesceFor(base, 20*time.Millisecond) // workers abandoned on AssembleFile's error returns never finish
@@ -495,6 +563,14 @@ func run(c Case) (o hx.Outcome) {
 	}
 	storeComplete := len(c.Missing) == 0 && len(c.FailGet) == 0
 	seedsOK := !staleSeed && !missingSeed && !unopenableSeed
+	if midRunDone {
+		o.Class("seed-changed-mid-run")
+		// a seed that changes while it is being used is only promised to be survived under regenerate
+		if c.Action%3 != 2 {
+			seedsOK = false
+			storeComplete = storeComplete && false
+		}
+	}
 	live := storeComplete && incons == "" && !aliasSeed &&
 		(seedsOK || c.Action%3 == 1 || (c.Action%3 == 2 && !missingSeed && !unopenableSeed))
 	if live && err != nil {
@@ -603,7 +679,7 @@ var spec = &hx.Spec[Case]{
 		"non-trivial = at least one chunk came from a seed, was found in place, or bytes were cloned; distinct by (content hash, sizes, seed kinds, prior, action, n, clone, inconsistency)",
 	Assumptions: []string{"block cloning is emulated in-process (rules of fs/remap_range.c), real reflink filesystems are not available", "worker interleavings perturbed at hook sites, not enumerated", "chunk IDs recomputed with crypto/sha512"},
 	Required: []string{"action:bailout", "action:skip", "action:regenerate", "prior:absent", "prior:empty", "prior:garbage", "prior:longer", "prior:shorter", "prior:older", "prior:exact",
-		"empty-blob", "empty-seed", "alias-seed", "stale-seed", "unopenable-seed", "clone-on:max<block", "clone-on:min>block", "clone-on:inplace-seed", "clone-on:isolated-small-null-chunk",
+		"empty-blob", "empty-seed", "alias-seed", "stale-seed", "unopenable-seed", "seed-changed-mid-run", "clone-on:max<block", "clone-on:min>block", "clone-on:inplace-seed", "clone-on:isolated-small-null-chunk",
 		"chunks-from-seed", "chunks-in-place", "bytes-cloned", "liveness-demanded", "inconsistent-index:size-shift"},
 	Gen:      genCase,
 	Run:      run,
